@@ -97,3 +97,7 @@ def shift(inp):
                         if a != b:
                             bad.append({'cls': cls.__name__, 'tau': ta, 'm': mm, 'unshifted': a, 'shifted': b})
     return {'violates': bool(bad), 'kind': kind, 'detail': bad[:4]}
+
+
+# thorough tier (bounded native sweeps): (function, inputs, obligation of the open finding it reproduces or None)
+THOROUGH = [('shift', {}, None)]
